@@ -55,6 +55,32 @@ func checkC20(p *Prog, r *Report) {
 	c20Run(p, r)
 	c20Peers(p, r)
 	c20ConfiguredValuesKept(p, r)
+	// --max-protocol-version is honoured by the per-frame version gate (decided for every version and maximum)
+	{
+		cl := p.proxyClientType()
+		r.borrow("C13", "C20", func() { c13Gate(p, r, cl, p.methodOf(cl, "Receive")) })
+	}
+}
+
+// tableLabels: a lookup table instead of a switch: the keys of every constant name table fn looks
+// a name up in are its labels.
+func tableLabels(p *Prog, fn *ssa.Function) []string {
+	var labels []string
+	eachInstr(fn, func(in ssa.Instruction) {
+		if lk, ok := in.(*ssa.Lookup); ok {
+			if ld, ok := lk.X.(*ssa.UnOp); ok {
+				if g, ok := ld.X.(*ssa.Global); ok {
+					if tbl, ok := p.constMapLiteral(g); ok {
+						for k := range tbl {
+							labels = append(labels, k)
+						}
+					}
+				}
+			}
+		}
+	})
+	sort.Strings(labels)
+	return labels
 }
 
 func c20Versions(p *Prog, r *Report) {
@@ -70,7 +96,8 @@ func c20Versions(p *Prog, r *Report) {
 		"65": "ProtocolVersionDse1", "dsev1": "ProtocolVersionDse1",
 		"66": "ProtocolVersionDse2", "dsev2": "ProtocolVersionDse2",
 	}
-	labels := labelsOf(pv)
+	labels := append(labelsOf(pv), tableLabels(p, pv)...)
+	sort.Strings(labels)
 	lowerCalled := false
 	eachCall(pv, func(c ssa.CallInstruction) {
 		if callIsFunc(c, "strings", "ToLower") && c.Common().Args[0] == ssa.Value(pv.Params[0]) {
@@ -171,21 +198,7 @@ func c20Consistencies(p *Prog, r *Report) {
 	}
 	cls := p.constsOfType("primitive", "ConsistencyLevel")
 	clF := p.Field("proxy", "clWrapper", "ConsistencyLevel")
-	labels := labelsOf(fn)
-	// a lookup table instead of a switch: its keys are the labels
-	eachInstr(fn, func(in ssa.Instruction) {
-		if lk, ok := in.(*ssa.Lookup); ok {
-			if ld, ok := lk.X.(*ssa.UnOp); ok {
-				if g, ok := ld.X.(*ssa.Global); ok {
-					if tbl, ok := p.constMapLiteral(g); ok {
-						for k := range tbl {
-							labels = append(labels, k)
-						}
-					}
-				}
-			}
-		}
-	})
+	labels := append(labelsOf(fn), tableLabels(p, fn)...)
 	sort.Strings(labels)
 	run := func(label string) (string, AV) {
 		s := newSim(p)
